@@ -157,7 +157,56 @@ def h_factor_one(ctx, case):
     return 'ok'
 
 
+def h_row_selection(ctx, case):
+    """cells are selected per parent by row index and written back by
+    the same index: with several cells every record must be the one the
+    oracle computed for that very cell (gaps in the selected rows)"""
+    levels, names, parents, data = LL.build_tree(ctx, case)
+    tree, err = LL.validator_accepts(data)
+    if tree is None:
+        raise core.PathAbort('invalid')
+    IT = ctx.int('iterations', 1, 1000000)
+    n = case['cells']
+    try:
+        oracle, result = LL.run_levels(ctx, case, tree, levels, names,
+                                       parents, n, 1, IT)
+    except Exception as e:
+        ctx.exception(e)
+        return 'EXC ' + type(e).__name__
+    ctx.reach('mapped')
+    ctx.check(len(result) == n, 'one record per cell')
+    for tag, cell in enumerate(result):
+        parent_node = None
+        for k, lv in enumerate(levels):
+            a = str(cell[lv]['assignment'])
+            sibs = LL._children_in(oracle, levels, levels, parent_node, lv)
+            if len(sibs) > 1:
+                pk = 'root' if parent_node is None else parent_node[1]
+                lvs = oracle.leaves_under(k, a)
+                if any((tag, pk, lf) not in oracle.v for lf in lvs):
+                    ctx.check(False, 'the record of a cell was computed '
+                              'from the votes of that cell')
+                else:
+                    av = Sum([oracle.v[(tag, pk, lf)] for lf in lvs])
+                    ctx.check(ctx.eq(cell[lv]['bootstrapping_probability']
+                                     * IT, av),
+                              'the record of a cell was computed from the '
+                              'votes of that cell')
+            parent_node = (lv, a)
+    return 'ok'
+
+
 HARNESSES = [
+    Harness('row_selection_by_index', h_row_selection, setup=LL.setup,
+            cases=[{'sizes': [2, 3], 'cells': 3}],
+            thorough_cases=[{'sizes': [2, 3], 'cells': 3},
+                            {'sizes': [2, 3], 'cells': 4},
+                            {'sizes': [2, 2], 'cells': 5}],
+            funcs=C03.FUNCS, stubs=C03.STUBS, assumptions=C03.ASSUME,
+            bounds='4 (5) cells on two-level trees: every split of the '
+                   'cells between the parents, including non-contiguous '
+                   'row sets with gaps',
+            expect_reach=['mapped'], split=48),
     Harness('relational_level_loop', h_relational, setup=LL.setup,
             cases=[{'sizes': s} for s in ([2], [3], [1, 2], [2, 2])],
             thorough_cases=[{'sizes': s} for s in
